@@ -183,7 +183,7 @@ def wellTyped (f : Fn) : Bool := tcBody (f.params ++ f.locals) f.results f.body 
 /-! ## the translation -/
 
 /-- an SSA value with the type it carries (`ssa.Value` embeds its type) -/
-abbrev TV := Val × Ty
+abbrev TV := Nat × Ty
 
 /-- `loweringState` + the builder's counters, inside the entry block -/
 structure LS where
